@@ -2,10 +2,14 @@
 // working tree of the repository. It is shared by extract-C09 and extract-C10.
 //
 // Every fact is a *choice made in the source text*: which id expression each newFrame call site
-// passes, the loop conditions of runCfg, the statements of stop, the root-id refresh of Execute,
-// the ctx.Done() arm of the three ...WithContext watchers, and, per blocking channel generator,
-// whether f.done is one of the reflect.Select cases, whether the done case ends the frame, and
-// whether the variant is chosen by n.interp.cancelChan. A shape that is not recognised yields a
+// passes (for the sites that call newCallFrame: what that function passes, and which done channel
+// it gives the frame), the loop conditions of runCfg, the statements of stop (bump, close, renew),
+// the root-id refresh of Execute and its deferred second one, the refresh of importSrc, where
+// cancelChan is set (New or the ...WithContext entry points), the ctx.Done() arm of the three
+// ...WithContext watchers, per blocking channel generator whether f.done is one of the
+// reflect.Select cases, whether the done case ends the frame and whether the variant is chosen by
+// n.interp.cancelChan, whether recv stores the received value only after the test of the chosen
+// case, and whether the wrapper made by getFunc writes the literal's frame slot back. A shape that is not recognised yields a
 // value that cannot equal the hand-written expectation (IdSrc.other / false plus a note).
 package runid
 
@@ -88,7 +92,14 @@ func (f *facts) callFrameOf(ip *ast.File) callFrame {
 		f.note("newCallFrame: %d newFrame calls, or the ancestor is not the parameter", len(calls))
 		return cf
 	}
-	// the frame returned is the one newFrame made
+	// the frame returned is the one newFrame made: `return newFrame(…)`, or a variable that is returned
+	direct := false
+	ast.Inspect(fd, func(m ast.Node) bool {
+		if r, ok := m.(*ast.ReturnStmt); ok && len(r.Results) == 1 && r.Results[0] == ast.Expr(calls[0]) {
+			direct = true
+		}
+		return true
+	})
 	res := ""
 	ast.Inspect(fd, func(m ast.Node) bool {
 		if as, ok := m.(*ast.AssignStmt); ok && len(as.Lhs) == 1 && len(as.Rhs) == 1 && as.Rhs[0] == ast.Expr(calls[0]) {
@@ -122,7 +133,9 @@ func (f *facts) callFrameOf(ip *ast.File) callFrame {
 	default:
 		f.note("newCallFrame: done channel %v", dones)
 	}
-	if !contains(fd, "return "+res) {
+	if direct {
+		cf.done = "inherit"
+	} else if res == "" || !contains(fd, "return "+res) {
 		cf = callFrame{"other", "other"}
 		f.note("newCallFrame does not return the frame it made")
 	}
